@@ -23,15 +23,6 @@ class InitDomain(TagDomain):
   def param(self, func, name, index):
     return frozenset([('from', name)])
 
-  def on_call(self, kind, target, args, kwargs, node, st):
-    super().on_call(kind, target, args, kwargs, node, st)
-    if kind == 'ext' and target == 'warnings.warn':
-      cat = kwargs.get('category') or (args[1] if len(args) > 1 else None)
-      name = 'UserWarning'
-      if cat is not None and cat.fn and cat.fn[0] == 'ext':
-        name = cat.fn[1].rsplit('.', 1)[-1]
-      self.event(st, ('warn', name))
-
 
 def rule_ctor(repo, rep):
   R = 'R-FLOW:ctor-param-stored'
